@@ -14,7 +14,8 @@ StrCls  == {"empty", "ascii", "slash", "html", "multibyte", "hexaddr", "invalidu
 ByteCls == {"empty", "short", "b32", "nonutf8", "long"}
 NumCls  == {"0", "1", "2p53p1", "2p63", "max"}
 Objs    == {"packet", "ack", "transfer", "calldata"}
-NameCls == {"plain", "dots", "brackets", "hash", "len3", "len64"}
+(* valid chain names; the kw* classes are names equal to a constant element of the store paths ("sequences", "commitments", ...) *)
+NameCls == {"plain", "dots", "brackets", "hash", "len3", "len64", "digits", "kwsequences", "kwcommitments", "kwreceipts", "kwacks", "kwnextseq"}
 ObjCases == [fam : {"obj"}, obj : Objs, s : StrCls, b : ByteCls, n : NumCls]
 KeyCases == [fam : {"key"}, src : NameCls, dst : NameCls, n : NumCls]
 Cases == ObjCases \cup KeyCases
